@@ -18,6 +18,7 @@ STRENGTH = {
     "C02-m1": "missed at first; caught after the directed colliding-filter scenarios",
     "C08-m2": "missed by C08 at first (caught by C09's live broker); C08 catches it since a panicking packet is one of the ways of ending",
     "C07-m2": "missed at first; caught after ttl values above the retention period and the end-of-history store dump (channel, payload, ttl)",
+    "C20-m4": "missed at first; caught after adding licences with boundary contract / signature / master index values",
     "C11-m3": "missed at first; caught after calling CreateKey directly (the HTTP form's path) with expired masters",
     "C14-m3": "missed at first; caught after observing whether the persisted ban record carries an expiry",
     "C14-m4": "missed at first; caught after the lookups-racing-toggles case",
